@@ -300,6 +300,22 @@ def freeze_tx_2_1(cls: Const(CTransaction),
     ensures(result.nLockTime == tx.nLockTime and result.nVersion == tx.nVersion)
 
 
+@contract('bitcoin.core:CTransaction.from_tx', name='freeze_tx_tuples_2_1', prop=[P, 'C02'])
+def freeze_tx_tuples_2_1(cls: Const(CTransaction),
+                         tx: Obj(CMutableTransaction, heap=True, vin=TupleOf(MIN, len=2), vout=TupleOf(MOUT, len=1), wit=Obj(CTxWitness))):
+    """BOUNDED IN LENGTH: the same when the mutable transaction holds its inputs and outputs in TUPLES (an immutable
+    container says nothing about its elements: they are frozen one by one all the same)"""
+    requires(0 <= tx.nLockTime and tx.nLockTime <= 0xffffffff)
+    requires(forall(range(0, 2), lambda j: len(tx.vin[j].prevout.hash) == 32 and 0 <= tx.vin[j].prevout.n
+                    and tx.vin[j].prevout.n <= 0xffffffff and 0 <= tx.vin[j].nSequence and tx.vin[j].nSequence <= 0xffffffff))
+    ensures(typeis(result, CTransaction) and result is not tx and len(result.vin) == 2 and len(result.vout) == 1)
+    ensures(forall(range(0, 2), lambda j: typeis(result.vin[j], CTxIn) and result.vin[j] is not tx.vin[j]
+                   and typeis(result.vin[j].prevout, COutPoint) and result.vin[j].prevout is not tx.vin[j].prevout
+                   and result.vin[j].prevout.hash == tx.vin[j].prevout.hash and result.vin[j].prevout.n == tx.vin[j].prevout.n))
+    ensures(typeis(result.vout[0], CTxOut) and result.vout[0] is not tx.vout[0]
+            and result.vout[0].nValue == tx.vout[0].nValue and result.vout[0].scriptPubKey == tx.vout[0].scriptPubKey)
+
+
 @contract('bitcoin.core:CMutableTransaction.from_tx', name='thaw_tx_2_1', prop=[P, 'C02'])
 def thaw_tx_2_1(cls: Const(CMutableTransaction),
                 tx: Obj(OneOf(CTransaction, CMutableTransaction), heap=True, vin=ListOf(MIN, len=2), vout=ListOf(MOUT, len=1),
